@@ -73,6 +73,37 @@ package main
 // emitted ONCE as a definition `<f>.kN` of the variables it mentions and both branches call it (otherwise it is
 // copied).  `clear(s[len(s):cap(s)])` zeroes the array beyond the visible elements: no effect on a list.
 //
+// # Recursion over the slab tree (the DESCENT; WP12)
+//
+// `ArrayMetaDataSlab.Get / Set / Insert / Remove / PopIterate` read a child slab from the storage and call the same
+// method on it through the `ArraySlab` interface: recursion through dynamic dispatch over a heap.  A target marked
+// `Rec` is translated as STRUCTURAL recursion on an extra argument `depth_ : Nat` placed after `env`:
+//
+//	def T_M (env) (depth_ : Nat) (a : T) .. := match depth_ with | 0 => none | depth_ + 1 => let rec_ := T_M env depth_; <body>
+//
+// (`none` at depth 0: the tree is deeper than the argument - the function leaves the modelled fragment; the theorems
+// quantify over every depth argument that covers the tree.)  The dispatcher `<Sum>_M` of such a method takes the
+// recursive implementation as a parameter `rec_` (the caller passes `rec_`, or `T_M env depth_` from a target marked
+// `Fuel`, which only has the depth argument and hands it on); loops and join points of a `Rec` target receive `rec_` /
+// `depth_` as parameters like any other variable they mention.  Implementations of one method may differ in which
+// parameters they ignore (`_ SlabStorage`): the dispatcher keeps a parameter that any of them keeps.
+//
+// `EnvMethods` of the unit: methods of an object type that this engine does NOT translate and calls as parameters
+// `env.<Struct>_<method> receiver args` - `childSlabIndexInfo` (translated by the stateless engine; the proofs
+// instantiate the parameter with that translation) and the nesting machinery of `Array` (`setCallbackWithChild`,
+// `notifyParentIfNeeded`, `incrementIndexFrom`, `decrementIndexFrom`; the receiver is threaded through because a parent
+// callback can change the array).
+//
+// Two relaxations that the descent needs: (1) an alias whose variable is NEVER MENTIONED AGAIN (textually, after the
+// statement being translated; inside a loop: never relaxed) ends when its source is written, instead of rejecting the
+// function (`root := a.root.(*ArrayMetaDataSlab); .. a.promoteChildAsNewRoot(root.childrenHeaders[0].slabID)`); the
+// variable is marked consumed.  (2) the bound `len(s)` of a counted loop may be a slice whose ELEMENTS the body
+// assigns (`s[i]++` keeps the length); any other assignment to `s` is still rejected.
+//
+// TRUSTED for the descent: a slab handed to `Store` is stored BY VALUE and `getArraySlab` returns what was stored last;
+// a slab that is changed after it was stored and not stored again is not seen by later reads (Go: the storage keeps
+// the pointer, so it would be seen).  The heap theorems therefore say what the PERSISTED slabs are.
+//
 // Anything outside the subset makes the function "untranslatable": `def f : Untranslatable := ⟨reason⟩`, listed in
 // `untranslatedFunctions`; its theorems stop compiling.
 
